@@ -291,4 +291,23 @@ def imagePath (E : Env) (sym : Sym) (contents : List Nat) (width height : Int) (
   | .error e => .error e
   | .ok img => readImage E sym ext39 (Bitmap.ofPic binz ((Pic.ofImage img).pose pose)) tryHarder
 
+/-! ## the multi-format UPC/EAN reader -/
+
+/-- `multiFormatUPCEANReader.DecodeRow`; `formats` = the POSSIBLE_FORMATS hint seen by constructor and call
+    (`some k` = a UPC/EAN format, `none` = any other format; `[]` = no hint) -/
+def multiRow (E : Env) (formats : List (Option EanKind)) (rn : Int) (row : List Bool) : Res (Sym × List Nat) :=
+  (OneDRowExt.multiDecodeRow OneDRowExt.VarOps.exact E.T E.X (OneDRowExt.multiReaders formats) rn row
+      { canUPCA := formats.contains (some .upca) }).2.map (fun r => (Sym.ofEan r.format, r.text))
+
+/-- `NewMultiFormatUPCEANReader(hints).Decode(bitmap, hints)` -/
+def readImageMulti (E : Env) (formats : List (Option EanKind)) (b : Bitmap) (tryHarder : Bool) : Res Read :=
+  (decodeImage (multiRow E formats) b tryHarder).map
+    (fun f => ⟨f.res.1, f.res.2, f.row, f.reversed, f.rotated, f.orientation⟩)
+
+def imagePathMulti (E : Env) (sym : Sym) (contents : List Nat) (width height : Int) (margin : Option Int)
+    (forced : Option Nat) (pose : Pose) (binz : Binz) (formats : List (Option EanKind)) (tryHarder : Bool) : Res Read :=
+  match writeImage E.T sym contents width height margin forced with
+  | .error e => .error e
+  | .ok img => readImageMulti E formats (Bitmap.ofPic binz ((Pic.ofImage img).pose pose)) tryHarder
+
 end Gzx.Image1D
